@@ -1,0 +1,13 @@
+//go:build verif
+
+package health
+
+import (
+	gohealth "github.com/InVisionApp/go-health/v2"
+)
+
+// VerifInject delivers a probe completion through the same path go-health uses
+// (build tag `verif` only).
+func (p *Prober) VerifInject(state *gohealth.State) {
+	p.healthCheckCompleted(state)
+}
